@@ -258,3 +258,46 @@ func (c *ctx) sent(g gInfo, base result, lines []string) {
 			fmt.Sprintf("the local value hashes %s, the value decoded from its own disco#info reply hashes %s%s", clip(string(base.pre)), clip(string(res.pre)), firstDiff(string(res.pre), string(base.pre))))
 	}
 }
+
+// decoded (review C20-6): replies as a peer may send them, written by hand rather than by the
+// harness' own writer: multi-item results with <reported/>, nested forms, values with child
+// elements, fields without var or type, options, several FORM_TYPE fields, no type attribute.
+// What the decoder makes of them is read back through the exported API (snap) and that view is
+// the case: the real Hash must not panic, must hash what the model and the reference hash for
+// that view, and must leave the value alone.
+var peerReplies = []string{
+	`<x xmlns='jabber:x:data' type='result'><reported><field var='a' type='text-single'/></reported><item><field var='a'><value>1</value></field></item><item><field var='a'><value>2</value></field></item></x>`,
+	`<x xmlns='jabber:x:data' type='result'><field var='FORM_TYPE' type='hidden'><value>t</value></field><field var='n'><x xmlns='jabber:x:data' type='result'><field var='in'><value>v</value></field></x><value>out</value></field></x>`,
+	`<x xmlns='jabber:x:data' type='result'><field var='FORM_TYPE' type='hidden'><value>t</value></field><field var='v'><value>a<b xmlns='urn:x'>z</b>c</value><value/></field></x>`,
+	`<x xmlns='jabber:x:data'><field><value>x</value></field><field type='fixed'><value>y</value></field><field var=''><value>z</value></field></x>`,
+	`<x xmlns='jabber:x:data' type='form'><title>T</title><instructions>I</instructions><field var='l' type='list-single' label='L'><desc>d</desc><required/><option label='o'><value>opt</value></option><value>opt</value></field></x>`,
+	`<x xmlns='jabber:x:data' type='result'><field var='FORM_TYPE'/><field var='FORM_TYPE' type='hidden'><value>u</value><value>t</value></field><field var='b' type='boolean'><value>maybe</value></field><field var='j' type='jid-multi'><value>not a jid@@</value><value>a@b</value></field></x>`,
+	`<x xmlns='jabber:x:data' type='cancel'/><x xmlns='jabber:x:data' type='submit'><field var='FORM_TYPE'><value>s</value></field></x>`,
+	`<x xmlns='jabber:x:data' type='result'><field var='m' type='text-multi'><value>2</value><value>1</value><value>2</value></field></x><x xmlns='jabber:x:data' type='result'><field var='m' type='text-multi'><value>1</value></field></x>`,
+}
+
+func (c *ctx) decoded() {
+	r := c.r
+	for k, forms := range peerReplies {
+		doc := "<query xmlns='http://jabber.org/protocol/disco#info'><identity category='client' type='pc' name='n'/><feature var='f'/>" + forms + "</query>"
+		var i disco.Info
+		if err := xml.Unmarshal([]byte(doc), &i); err != nil {
+			r.Hist["peer-reply-not-decoded"]++
+			continue
+		}
+		g := snap(i)
+		line := "ver " + g.enc() + " decoded"
+		lines := []string{r.Prop + " " + line, fmt.Sprintf("#peer reply %d: %s", k, forms)}
+		res := runHash(i, stdcrypto.SHA1)
+		r.Line(line, res.obs())
+		r.Case(line, res.panicked == "", "peer-reply")
+		if res.panicked != "" {
+			r.Fail("total", "peer-reply", lines, "Hash panicked on a decoded reply: "+res.panicked)
+			continue
+		}
+		if want := refVer(g); string(res.pre) != want {
+			r.Fail("equals-spec", "peer-reply", lines, fmt.Sprintf("hashed %s, XEP-0115 5.1 on the decoded fields gives %s%s", clip(string(res.pre)), clip(want), firstDiff(string(res.pre), want)))
+		}
+		c.twice(g, "decoded", i, g, lines, res)
+	}
+}
